@@ -214,11 +214,16 @@ def sym_indexer(vc):
     from pyvc import lib
     fk = vc.under_contract(P + 'join.py', ['join_aux', 'indexer'])
     spec = SpecModule(SPEC)
-    for agg in ('sum', 'count', 'first', 'array', 'avg'):
+    # count: "count the number of occurrences of a specific key ... In case [name] is specified, count will count the number of
+    # non-null values for that source field" (PROCESSORS.md): 'count' names the source field, 'count-rows' gives no name
+    for agg in ('sum', 'count', 'count-rows', 'first', 'array', 'avg'):
         for mode in ('half-outer', 'full-outer'):
             for which in (0, 1, 2):          # key absent | key present, field state empty (None) | field has a state
                 def thunk(it, agg=agg, mode=mode, which=which):
-                    func, usage, db = mk_join(it, mode=mode, agg=agg)
+                    unnamed = agg == 'count-rows'
+                    agg = 'count' if unnamed else agg
+                    from pyvc.api import PyDict as _PD
+                    func, usage, db = mk_join(it, mode=mode, agg=agg, fields=_PD({'x': _PD({'aggregate': 'count'})}) if unnamed else None)
                     indexer = func.env.lookup('indexer')
                     sp = spec.bind(it)
                     states = agg_states(it, agg)
@@ -237,7 +242,7 @@ def sym_indexer(vc):
                             return cur_dict
                     db.attrs['call:get'] = get
                     r = mk_resource(it, 'source')
-                    tag = '[%s,%s,%d]' % (agg, mode, which)
+                    tag = '[%s,%s,%d]' % ('count-rows' if unnamed else agg, mode, which)
 
                     def at_start(it, env, elem):
                         n, row = elem
@@ -261,12 +266,11 @@ def sym_indexer(vc):
                                   _b(term(st[1].objs[0], StrS) == term(key, StrS)))
                             cur2 = st[0].objs[1]
                             v = it.uncell(z3.If(snap.dom[z3.StringVal('v')], snap.val[z3.StringVal('v')], Cell.none))
-                            newv = '' if agg == 'count' else v
-                            isnull = False if agg == 'count' else Cell.is_none(it.cell_of(v))
+                            isnull = Cell.is_none(it.cell_of(v))
                             got_state = cur2.d.get('x')
-                            if agg == 'count':
+                            if unnamed:
                                 want = run_spec(it, sp.attrs['fold_step'], [agg, curr, '']).value
-                                check(it, 'count-counts-every-row' + tag, _b(same_state(it, got_state, want)))
+                                check(it, 'count-without-a-name-counts-every-row' + tag, _b(same_state(it, got_state, want)))
                             else:
                                 if it.branch(isnull):
                                     check(it, 'null-value-leaves-the-state-unchanged' + tag, got_state is curr or
@@ -444,7 +448,8 @@ def nat_join(h):
     def ref_agg(agg, vals, nrows):
         nn = [v for v in vals if v is not None]
         if agg == 'count':
-            return nrows
+            # the aggregate names the source field v: the number of its non-null values (no value at all: null, like the others)
+            return len(nn) if nn else None
         if agg in ('set',):
             return sorted(set(nn), key=repr)
         if agg == 'array':
@@ -563,7 +568,7 @@ def nat_aggregators_fixed(h):
     def ref(agg, vals):
         nn = [v for v in vals if v is not None]
         if agg == 'count':
-            return len(vals)
+            return len(nn) if nn else None
         if agg == 'set':
             return sorted(set(nn))
         if agg == 'array':
@@ -598,6 +603,14 @@ def nat_aggregators_fixed(h):
                 return out
             ok = got[0] == 'ok' and norm(got[1]) == norm(want)
             h.check(ok, P + 'join.py::AGGREGATORS', (agg, mode, dict(per_key)), norm(want), norm(got[1]) if got[0] == 'ok' else got[:2])
+    # count: occurrences of the key without a name, non-null values of the named source field with one (PROCESSORS.md)
+    csrc = [{'k': 'a', 'v': 'x'}, {'k': 'a', 'v': None}, {'k': 'a', 'v': None}, {'k': 'b', 'v': None}]
+    got = h.run(lambda: Flow([dict(r) for r in csrc], [{'k': 'a'}, {'k': 'b'}, {'k': 'c'}],
+                             join('res_1', ['k'], 'res_2', ['k'], fields={'n_rows': {'aggregate': 'count'}, 'n_v': {'name': 'v', 'aggregate': 'count'}})
+                             ).results(on_error=None)[0][-1])
+    wantc = [{'k': 'a', 'n_rows': 3, 'n_v': 1}, {'k': 'b', 'n_rows': 1, 'n_v': None}, {'k': 'c', 'n_rows': None, 'n_v': None}]
+    h.check(got[0] == 'ok' and [dict(r, n_v=r['n_v'] or None) for r in got[1]] == wantc, P + 'join.py::join_aux.indexer', 'count with and without a name',
+            wantc, got[1] if got[0] == 'ok' else got[:2])
     # sum over text = concatenation in order of appearance
     ssrc = [{'k': 'a', 's': 'x'}, {'k': 'b', 's': 'p'}, {'k': 'a', 's': 'y'}, {'k': 'a', 's': 'z'}]
     got = h.run(lambda: Flow([dict(r) for r in ssrc], [{'k': 'a'}, {'k': 'b'}],
